@@ -33,7 +33,8 @@ Emit == IF Len(hist) = MaxSteps
         THEN Serialize(ToJson([steps |-> hist,
                                kinds |-> [c \in Classes |-> ClassKinds[c]],
                                x |-> [c \in Classes |-> ClassX[c]],
-                               t |-> [c \in Classes |-> ClassT[c]]]) \o "\n", "behaviours.ndjson",
+                               t |-> [c \in Classes |-> ClassT[c]],
+                               m |-> [c \in Classes |-> ClassM[c]]]) \o "\n", "behaviours.ndjson",
                  [format |-> "TXT", charset |-> "UTF-8", openOptions |-> <<"WRITE", "CREATE", "APPEND">>]).exitValue = 0
         ELSE TRUE
 =============================================================================
